@@ -1,20 +1,13 @@
 #!/usr/bin/env python3
-"""Regenerates /verif/MANIFEST.json from the table below (run after adding a check)."""
+"""Regenerates /verif/MANIFEST.json from bin/checks_meta.py (run after adding a check)."""
 import json, os, sys
 
 ROOT = os.path.dirname(os.path.dirname(os.path.abspath(__file__)))
-
-# id -> (level, technique, level text, level note, design ref)
-CHECKS = {
- "C11": ("exploration", "runtime oracle (uint64 arithmetic) over enumerated totals and generated validator sets",
-         "Every total in the swept ranges (all 2^31-1 totals in thorough) is pushed through the real builder/Quorum/WeightCounter and compared with arithmetic written from the statement; random multi-validator sets add boundary subsets, pairwise quorum intersection and counting sequences with repeats against a set model. Exhaustive only in the total-weight dimension (thorough); subsets and call sequences are sampled.",
-         "Trusts: the oracle's uint64 arithmetic; sets are built through the public builder (one/two-validator sets for the sweep).", "§5 C11"),
- "C10": ("exploration", "reference-model monitor (independent naive Lachesis implementation stepped online against the real instance)",
-         "Generated multi-epoch DAGs (forks < 1/3, lag, partitions, tie-heavy weights) are fed to real IndexedLachesis instances in several parents-first orders; after every event the built frame, accept/reject and the newly emitted blocks (moment, frame, Atropos) are compared with a from-scratch re-implementation of the rules (graph closure forkless cause, frame rule, vote/majority/decide, Atropos choice). Sampled inputs, not exhaustive.",
-         "Trusts the reference model harness/cons/ref.go (written from the rules in the statement, validated against mutants); cheaters < 1/3 by construction.", "§5 C10, §4 E1/E2"),
-}
+sys.path.insert(0, os.path.join(ROOT, "bin"))
+from checks_meta import CHECKS  # noqa: E402
 
 NOT_YET = "check not built yet in this round (planned in DESIGN.md §5); nothing is claimed for it"
+
 
 def main():
     props = [json.loads(l) for l in open(os.path.join(ROOT, "properties.jsonl"))]
@@ -60,6 +53,7 @@ def main():
     }
     json.dump(m, open(os.path.join(ROOT, "MANIFEST.json"), "w"), indent=1)
     print(f"MANIFEST.json: {len(checks)} checks, {len(na)} not claimed")
+
 
 if __name__ == "__main__":
     main()
